@@ -478,6 +478,9 @@ func checkRej(c RejCase) error {
 			return nil
 		}
 	}
+	if c.Kind == "empty" {
+		trees = nil // a collection without any tree (a file that holds none)
+	}
 	ch := make(chan tree.Trees, len(trees)+1)
 	for i, m := range trees {
 		if c.Kind == "error-record" && i == pos {
@@ -505,13 +508,13 @@ func checkRej(c RejCase) error {
 func TestC09Reject(t *testing.T) {
 	h.Run(t, h.Spec[RejCase]{
 		Property: "C09", Name: "reject", Quick: 3000, Thorough: 100000,
-		Rule: "collections of 2..8 trees with a threshold below 0.5 / above 1, or with one member whose taxon set differs (one tip renamed, added, removed, or carrying the name of another tip) at every position, or an error record in the stream: Consensus must return an error; every case is non-trivial",
+		Rule: "collections of 2..8 trees with a threshold below 0.5 / above 1, or with one member whose taxon set differs (one tip renamed, added, removed, or carrying the name of another tip) at every position, or an error record in the stream, or no tree at all: Consensus must return an error; every case is non-trivial",
 		Gen: func(t *rapid.T, thorough bool) RejCase {
 			trees := genCollection(t, false, 2)
 			if len(trees) > 8 {
 				trees = trees[:8]
 			}
-			c := RejCase{Trees: trees, Kind: rapid.SampledFrom([]string{"cutoff-low", "cutoff-high", "renamed", "added", "removed", "duplicate", "error-record"}).Draw(t, "kind"),
+			c := RejCase{Trees: trees, Kind: rapid.SampledFrom([]string{"cutoff-low", "cutoff-high", "renamed", "added", "removed", "duplicate", "error-record", "empty"}).Draw(t, "kind"),
 				Pos: rapid.IntRange(0, 7).Draw(t, "pos"), Cutoff: 0.5}
 			pos := c.Pos % len(trees)
 			switch c.Kind {
